@@ -514,10 +514,13 @@ struct Case {
     rhm: i32,
     /// see `typeset`
     shape: u8,
+    /// `\\hyphenation` entries inserted, in this order, into the underlying hyphenate::Hyphenator
+    /// (pub field `hyphenator`) before the pass
+    exceptions: Vec<String>,
 }
 impl Case {
     fn json(&self) -> Value {
-        json!({"kind": "list", "program": self.program.iter().map(|r| r.json()).collect::<Vec<_>>(), "program_text": self.program.iter().map(|r| r.compact()).collect::<Vec<_>>(), "text": self.text, "patterns": self.patterns, "lhm": self.lhm, "rhm": self.rhm, "shape": self.shape})
+        json!({"kind": "list", "program": self.program.iter().map(|r| r.json()).collect::<Vec<_>>(), "program_text": self.program.iter().map(|r| r.compact()).collect::<Vec<_>>(), "text": self.text, "patterns": self.patterns, "lhm": self.lhm, "rhm": self.rhm, "shape": self.shape, "exceptions": self.exceptions})
     }
 }
 
@@ -836,14 +839,20 @@ fn main() {
             lhm: case["lhm"].as_i64().unwrap_or(2) as i32,
             rhm: case["rhm"].as_i64().unwrap_or(3) as i32,
             shape: case["shape"].as_u64().unwrap_or(0) as u8,
+            exceptions: case["exceptions"].as_array().map(|a| a.iter().filter_map(|x| x.as_str().map(String::from)).collect()).unwrap_or_default(),
         };
         let font = synthetic_font(&env, &c.program).expect("program of a replay case compiles");
-        let hy = real_hyphenator(&env, &font, &c.patterns, c.lhm, c.rhm);
-        let lang = match c.patterns.as_str() {
-            "plain" => &env.plain,
-            "every" => &env.every,
-            _ => &env.every_ab,
+        let mut hy = real_hyphenator(&env, &font, &c.patterns, c.lhm, c.rhm);
+        let mut lang = match c.patterns.as_str() {
+            "plain" => env.plain.clone(),
+            "every" => env.every.clone(),
+            _ => env.every_ab.clone(),
         };
+        for e in &c.exceptions {
+            hy.hyphenator.insert_exception(e);
+            lang.add_exception(e, &ascii_lc);
+        }
+        let lang = &lang;
         judge(0, &c, &font, &hy, lang, &mut acc);
         let before = typeset(&font, &c.text, c.shape);
         eprintln!("original list: {}", show(&before));
@@ -860,6 +869,14 @@ fn main() {
     let vocab: Vec<String> = {
         let mut v: Vec<String> = ["difficult", "office", "shuffling", "waffle", "affliction", "fifty", "efficient", "Contents", "hyphenation", "a", "fi", "baffling", "stiffly", "chaff", "flyleaf", "halfback", "shelfful", "x-y", "AVATAR", "e.g.", "offline", "fluffiest", "raffish", "offhand", "OFFICE", "Office", "well-known", "don't", "fjord", "afford", "cliffs", "fflfi", "table", "project", "association", "typewriter", "WAVY", "ff", "3.0", "--", "``office''", "naïve", "café.", "éclair", "𝐚ffine", "office—suffix", "difficult\u{a0}"].iter().map(|s| s.to_string()).collect();
         v.extend(long_words());
+        // every word of plain_tex_exceptions.txt, in lower case and capitalised (punctuation comes from the templates)
+        for e in pe.split_whitespace() {
+            let w = e.replace('-', "");
+            let mut cap = w.clone();
+            cap[..1].make_ascii_uppercase();
+            v.push(w);
+            v.push(cap);
+        }
         v
     };
     let mins: Vec<(i32, i32)> = vec![(1, 1), (1, 2), (1, 3), (2, 1), (2, 2), (2, 3), (3, 1), (3, 2), (3, 3)];
@@ -882,7 +899,7 @@ fn main() {
             let d = vcore::digits(idx, &[nv, nt, nh]);
             let w = &vocab_r[d[0] as usize];
             let (ps, l, r, hy) = &hys_r[d[2] as usize];
-            let case = Case { program: vec![], text: templates_r[d[1] as usize].replace("{}", w), patterns: ps.clone(), lhm: *l, rhm: *r, shape: 0 };
+            let case = Case { program: vec![], text: templates_r[d[1] as usize].replace("{}", w), patterns: ps.clone(), lhm: *l, rhm: *r, shape: 0, exceptions: vec![] };
             if !case.text.is_ascii() {
                 acc.count("text_with_a_non_ascii_character");
             }
@@ -906,7 +923,7 @@ fn main() {
         ctx.family("cmr10-two-words", &format!("cmr10: 'x W1 W2' for every ordered pair of the {nv} words{} x all {nh} (pattern set, minima) settings", if maxlen == 16 { " of at most 16 characters" } else { " of the vocabulary" }), nv * nv * nh, |idx, acc| {
             let d = vcore::digits(idx, &[nv, nv, nh]);
             let (ps, l, r, hy) = &hys_r[sel_r[d[2] as usize]];
-            let case = Case { program: vec![], text: format!("x {} {}", short_r[d[0] as usize], short_r[d[1] as usize]), patterns: ps.clone(), lhm: *l, rhm: *r, shape: 0 };
+            let case = Case { program: vec![], text: format!("x {} {}", short_r[d[0] as usize], short_r[d[1] as usize]), patterns: ps.clone(), lhm: *l, rhm: *r, shape: 0, exceptions: vec![] };
             judge(idx, &case, cmr_r, hy, if ps == "plain" { &env_r.plain } else { &env_r.every }, acc);
         });
     }
@@ -940,7 +957,7 @@ fn main() {
         ctx.family("cmr10-two-fonts", &format!("cmr10 registered as font 0 and font 1: 'x W' with each of the {} letter-only words of at most 12 letters switched from font fa to font fb at every split position, (fa,fb) in (0,1),(1,0), or wholly in font 1, followed by nothing | a word in font 0 | (after letters of font 1) a period in font 0 x 6 (pattern set, minima) settings", words.len()), cases.len() as u64, |idx, acc| {
             let (text, h) = &cases_r[idx as usize];
             let (ps, l, r, hy) = &hys_r[*h];
-            let case = Case { program: vec![], text: text.clone(), patterns: ps.clone(), lhm: *l, rhm: *r, shape: 0 };
+            let case = Case { program: vec![], text: text.clone(), patterns: ps.clone(), lhm: *l, rhm: *r, shape: 0, exceptions: vec![] };
             if !text.contains("{0}{1}") && !text.contains("{1}{0}") && (text.contains("{0}") && text[3..].contains("{1}")) {
                 acc.count("word_split_by_a_font_change");
             }
@@ -956,9 +973,64 @@ fn main() {
         ctx.family("cmr10-list-shapes", &format!("cmr10: {nw} words x {nt} templates x 6 post-edits of the list (a glue appended | every glue doubled | penalty 0 after every glue | explicit kern 0 after every glue | penalty 10000 + glue appended | font kern 0 after every glue) x all {nh} (pattern set, minima) settings"), nw * nt * ns * nh, |idx, acc| {
             let d = vcore::digits(idx, &[nw, nt, ns, nh]);
             let (ps, l, r, hy) = &hys_r[d[3] as usize];
-            let case = Case { program: vec![], text: templates[d[1] as usize].replace("{}", words[d[0] as usize]), patterns: ps.clone(), lhm: *l, rhm: *r, shape: d[2] as u8 + 1 };
+            let case = Case { program: vec![], text: templates[d[1] as usize].replace("{}", words[d[0] as usize]), patterns: ps.clone(), lhm: *l, rhm: *r, shape: d[2] as u8 + 1, exceptions: vec![] };
             acc.count("hand_made_list_shape");
             judge(idx, &case, cmr_r, hy, if ps == "plain" { &env_r.plain } else { &env_r.every }, acc);
+        });
+    }
+    // ---------------- F2d: exceptions inserted into the underlying hyphenate::Hyphenator before the pass
+    {
+        let lists: Vec<Vec<&str>> = vec![
+            vec!["man-u-script"],
+            vec!["of-fice"],
+            vec!["off-ice"],
+            vec!["of-fice", "off-ice"],
+            vec!["off-ice", "of-fice"],
+            vec!["tab-le"],
+            vec!["pro-ject", "proj-ect"],
+            vec!["diff-icult"],
+            vec!["dif-fi-cult", "d-i-f-f-i-c-u-l-t"],
+            vec!["as-sociate"],
+            vec!["waff-le", "shuff-ling", "aff-lic-tion", "affliction"],
+        ];
+        let words = ["manuscript", "office", "Office", "offices", "table", "project", "difficult", "associate", "waffle", "shuffling", "affliction"];
+        let templates = ["x {}", "x {}.", "x {} {}"];
+        let smins = [(1, 1), (2, 3), (2, 2)];
+        // one real hyphenator and one model language per (list, base pattern set, minima)
+        let mut settings: Vec<(usize, &str, i32, i32, boxworks_hyphenate::Hyphenator, Liang)> = vec![];
+        for (li, list) in lists.iter().enumerate() {
+            for base in ["plain", "every"] {
+                for (l, r) in smins {
+                    let mut hy = real_hyphenator(&env, &cmr, base, l, r);
+                    let mut lang = if base == "plain" { env.plain.clone() } else { env.every.clone() };
+                    for e in list {
+                        hy.hyphenator.insert_exception(e);
+                        lang.add_exception(e, &ascii_lc);
+                    }
+                    settings.push((li, base, l, r, hy, lang));
+                }
+            }
+        }
+        let (nw, nt, nset) = (words.len() as u64, templates.len() as u64, settings.len() as u64);
+        let (settings_r, lists_r, env_r, cmr_r) = (&settings, &lists, &env, &cmr);
+        ctx.family("cmr10-custom-exceptions", &format!("cmr10: {} exception lists inserted through the pub field `hyphenator` (longer than every pattern; re-declared with other breaks in both orders, the last must win; plain TeX's own entries re-declared; breaks before, inside and after the ff/ffi/ffl ligatures) x base patterns (plain TeX incl. its 14 exceptions, 'every position') x minima (1,1),(2,3),(2,2) x {nw} words x {nt} templates", lists.len()), nw * nt * nset, |idx, acc| {
+            let d = vcore::digits(idx, &[nw, nt, nset]);
+            let (li, base, l, r, hy, lang) = &settings_r[d[2] as usize];
+            let word = words[d[0] as usize];
+            let case = Case { program: vec![], text: templates[d[1] as usize].replace("{}", word), patterns: base.to_string(), lhm: *l, rhm: *r, shape: 0, exceptions: lists_r[*li].iter().map(|s| s.to_string()).collect() };
+            // counters from the case and the model
+            let wl: Vec<char> = word.to_ascii_lowercase().chars().collect();
+            let base_lang = if *base == "plain" { &env_r.plain } else { &env_r.every };
+            let longest = base_lang.patterns.iter().map(|p| p.key.iter().filter(|c| **c != liang::EDGE).count()).max().unwrap_or(0);
+            let entries: Vec<liang::Exception> = lists_r[*li].iter().filter_map(|e| liang::parse_exception(e, &ascii_lc)).filter(|e| e.letters == wl).collect();
+            if !entries.is_empty() && wl.len() > longest + 1 {
+                acc.count("exception_longer_than_longest_pattern");
+            }
+            let earlier: Vec<&liang::Exception> = base_lang.exceptions.iter().filter(|e| e.letters == wl).chain(entries.iter()).collect();
+            if earlier.len() >= 2 && earlier[..earlier.len() - 1].iter().any(|e| e.positions != earlier[earlier.len() - 1].positions) {
+                acc.count("exception_redeclared_last_wins");
+            }
+            judge(idx, &case, cmr_r, hy, lang, acc);
         });
     }
     // ---------------- F3/F4/F5: synthetic programs
@@ -1040,6 +1112,8 @@ fn main() {
         });
     }
 
+    ctx.require("exception_longer_than_longest_pattern", "a word whose exception entry has more letters than the longest pattern plus one is hyphenated in a list");
+    ctx.require("exception_redeclared_last_wins", "a word whose exception was declared before with other breaks (plain TeX's entry, or an earlier insert) is hyphenated in a list");
     ctx.require("word_split_by_a_font_change", "a run of letters changes font in the middle (TeX tries only the letters of the first font)");
     ctx.require("hand_made_list_shape", "lists with doubled/trailing glue, zero penalties and zero kerns");
     ctx.require("synthetic_rule_with_a_zero_width_kern", "a lig/kern rule whose kern has width 0");
@@ -1091,7 +1165,7 @@ fn run_synthetic(idx: u64, rules: &[Rule], words: &[String], templates: &[&str],
         let hy = real_hyphenator(env, &font, "every_ab", l, r);
         for w in words {
             for t in templates {
-                let case = Case { program: rules.to_vec(), text: t.replace("{}", w), patterns: "every_ab".into(), lhm: l, rhm: r, shape: 0 };
+                let case = Case { program: rules.to_vec(), text: t.replace("{}", w), patterns: "every_ab".into(), lhm: l, rhm: r, shape: 0, exceptions: vec![] };
                 // counters from the case: does a boundary / hyphen rule touch this text?
                 let first = w.as_bytes()[0];
                 let last = *w.as_bytes().last().unwrap();
